@@ -207,8 +207,10 @@ HistNext(h, a, i, pre, post, preD, postD) ==
                 ELSE IF a.name = "Tick" THEN [h.heard EXCEPT ![i] = [j \in Node |-> h.heard[i][j] + 1]]
                 ELSE IF a.name = "Deliver" /\ a.msg.type \in {"AppResp", "HeartbeatResp"} /\ a.msg.from \in Node
                      THEN [h.heard EXCEPT ![i][a.msg.from] = 0]
-                ELSE IF a.name \in {"Apply", "ApplyThread"}   \* membership may have grown: the bound restarts
-                     THEN [h.heard EXCEPT ![i] = [j \in Node |-> IF HasPr(post, j) /\ ~HasPr(pre, j) THEN 0 ELSE h.heard[i][j]]]
+                \* the configuration changed (grown or shrunk: a node that did not matter before may now be
+                \* indispensable): the bound restarts, the leader gets its full check interval under the new one
+                ELSE IF a.name \in {"Apply", "ApplyThread"}
+                     THEN [h.heard EXCEPT ![i] = [j \in Node |-> IF post.cfg # pre.cfg \/ (HasPr(post, j) /\ ~HasPr(pre, j)) THEN 0 ELSE h.heard[i][j]]]
                 ELSE h.heard
       outst1 == OutstNext(h.outst, a, i, pre, post)
       \* uncommitted-size accounting (C16).  The library's estimate is exact for the payload bytes of
@@ -226,7 +228,9 @@ HistNext(h, a, i, pre, post, preD, postD) ==
         ELSE h.uncAcc
       maxLC1 == IF up /\ post.role = "L" /\ post.commit > h.maxLeaderCommit THEN post.commit ELSE h.maxLeaderCommit
       cfgIdx1 == CASE a.name \in {"Restart", "Boot"} /\ up -> [h.cfgIdx EXCEPT ![i] = IF post.applied >= postD.snap.index THEN postD.snap.index ELSE 0]
-                   [] a.name \in {"Apply", "ApplyThread"} /\ Len(a.ents) > 0 /\ up -> [h.cfgIdx EXCEPT ![i] = Last(a.ents).index]
+                   \* (never backwards: with the storage threads, entries handed out before a snapshot arrived are
+                   \* applied after the snapshot has already replaced the node's configuration)
+                   [] a.name \in {"Apply", "ApplyThread"} /\ Len(a.ents) > 0 /\ up -> [h.cfgIdx EXCEPT ![i] = Max2(@, Last(a.ents).index)]
                    [] a.name = "Deliver" /\ a.msg.type = "Snap" /\ up /\ post.usnap.has /\ post.usnap.index = a.msg.snap.index
                         /\ ~(pre.usnap.has /\ pre.usnap.index = a.msg.snap.index) -> [h.cfgIdx EXCEPT ![i] = a.msg.snap.index]
                    [] OTHER -> h.cfgIdx
